@@ -481,7 +481,9 @@ def _orphan_replaced(ch, ops, d, hier, top):
     w = d.mods[mid].sigs[name][0]
     neww = ch.pick([w, w, w + 1, max(1, w - 1)], "replw")
     site = f"{'top' if mid == hier[-1] else 'deep'}:{d.mods[mid].insts[ops[i][2]]['kind']}:{'same' if neww == w else 'other'}-width"
-    return ops[: i + 1] + [["sig", mid, name, neww, "i", "n"]] + ops[i + 1 :], site
+    # (the new holder of the name may be of another kind: a port instead of an internal signal)
+    vis = ch.pick(["i", "i", "p"], "replvis")
+    return ops[: i + 1] + [["sig", mid, name, neww, vis, "n" if vis == "i" else ch.pick(["i", "o", "n"], "repldir")]] + ops[i + 1 :], site + (":as-port" if vis == "p" else "")
 
 
 def _noconn_shared(ch, ops, d, hier, top):
